@@ -289,27 +289,28 @@ def guards_and_closure(prog, chk):
     chk.floor("A16.guard-selector", n_guard, 25, "style rule under a has_class guard")
     dup = sorted({i for (i, _) in all_ids if len([1 for (j, _) in all_ids if j == i]) > 1})
     chk.ob(not dup, "A16.url-id-closure", "ids-distinct", "src/themes.rs", f"the {len(all_ids)} definition ids are pairwise distinct", f"definition ids defined more than once: {dup}")
-    # arrow marker: defined iff referenced - the add_defs is control dependent on the has_arrow flag, which is set in both guarded arms
+    # arrow marker: defined iff referenced - decided on paths, whatever the source idiom (a flag set in the guarded
+    # arms, two saved tests and an early return, a helper that reports whether it added the rule ..): no path reaches
+    # the definition without passing a rule that references it, and no path from such a rule leaves without it
     aa = prog.body(THEMES + "append_arrow_styles")
-    h = prog.hir[aa.id]
-    sets = 0
-    for iff in hirq.exprs(h["body"], "If"):
-        c = iff["cond"]
-        if c.get("k") == "MethodCall" and c["name"] == "has_class":
-            has_url = any("url(#d-arrow)" in (hirq.render_string_expr(n["args"][0]) or "") for n in hirq.exprs(iff["then"], "MethodCall") if n["name"] == "add_style")
-            sets_flag = any(hirq.field_chain(a["l"]) == ["has_arrow"] for a in hirq.exprs(iff["then"], "Assign"))
-            if has_url:
-                sets += 1 if sets_flag else -100
-    flag_guard = False
-    for iff in hirq.exprs(h["body"], "If"):
-        if hirq.field_chain(iff["cond"]) == ["has_arrow"]:
-            flag_guard = any(n["name"] == "add_defs" for n in hirq.exprs(iff["then"], "MethodCall"))
-    outside = [n for n in hirq.exprs(h["body"], "MethodCall") if n["name"] == "add_defs"]
-    if sets == 0 and flag_guard and len(outside) == 1:
-        # the marker is defined under the flag, but the arms that set it are not written as `if has_class(..) { add_style(..url(#d-arrow)..); flag = true }`
-        chk.undecided("A16.url-id-closure", "append_arrow_styles:flag", aa.where(), "the arrow marker is defined under a flag, but how the arms that reference the marker set that flag is not written in the form this rule reads")
+    chk.touch(aa)
+
+    def _lit_arg(t):
+        for a_ in t.get("args", [])[1:]:
+            o_ = R.origin(aa, a_, carriers=dict(R.CARRIERS))
+            if o_[0] == "const" and "str" in o_[1]:
+                return o_[1]["str"]
+        return None
+
+    refs_b = [bb for (bb, t, c) in aa.call_sites(lambda c: c.path.split("::")[-1] == "add_style") if "url(#d-arrow)" in (_lit_arg(t) or "")]
+    defs_b = [bb for (bb, t, c) in aa.call_sites(lambda c: c.path.split("::")[-1] == "add_defs") if 'id="d-arrow"' in (_lit_arg(t) or "")]
+    if not refs_b or len(defs_b) != 1:
+        chk.undecided("A16.url-id-closure", "append_arrow_styles:flag", aa.where(), f"the arrow marker's rules / definition are not emitted by add_style / add_defs calls with literal text in append_arrow_styles ({len(refs_b)} referencing rule(s), {len(defs_b)} definition(s) found): not decided")
     else:
-        chk.ob(sets >= 2 and flag_guard and len(outside) == 1, "A16.url-id-closure", "append_arrow_styles:flag", aa.where(), "every arm that emits a rule referencing the arrow marker sets the flag under which the marker is defined (defined iff referenced)", "the arrow marker definition is not tied to the arms that reference it")
+        rets = [x for x in aa.reachable if aa.term(x)["k"] == "ret"]
+        unref = R.feasible_reach(aa, [0], defs_b, avoid=refs_b)
+        undef = R.feasible_reach(aa, [aa.term(x)["t"] for x in refs_b if aa.term(x).get("t") is not None], rets, avoid=defs_b)
+        chk.ob(not unref and not undef, "A16.url-id-closure", "append_arrow_styles:flag", aa.where(defs_b[0]), "the arrow marker is defined on exactly the paths on which a rule referencing it was emitted (defined iff referenced)", ("the arrow marker definition can be emitted on a path on which no rule references it (not minimal)" if unref else "a rule referencing url(#d-arrow) can be emitted on a path that never defines the marker: a dangling reference"))
     # pattern / shadow builders are only invoked under the guard of their class
     tb = prog.body("svgdx::themes::Theme::build")
     hb = prog.hir[tb.id]
@@ -333,7 +334,11 @@ def guards_and_closure(prog, chk):
                 if s and fn:
                     rows.append((s, fn))
     good = bool(rows) and all(s.replace("-", "_") == fn for (s, fn) in rows)
-    chk.ob(good, "A16.guard-selector", "Theme::build:shadow-table", tb.where(), f"shadow table rows pair each class with its own builder {rows}", f"shadow table rows are mismatched: {rows}")
+    if not rows:
+        # the shadows are no longer a table of (class, builder function) rows (a data table with one builder, say)
+        chk.undecided("A16.guard-selector", "Theme::build:shadow-table", tb.where(), "Theme::build has no table of (class, builder function) rows: how a shadow class is paired with its definition is not read here")
+    else:
+      chk.ob(good, "A16.guard-selector", "Theme::build:shadow-table", tb.where(), f"shadow table rows pair each class with its own builder {rows}", f"shadow table rows are mismatched: {rows}")
 
 
 def _table_rows(node):
